@@ -358,10 +358,6 @@ Value Search::search(Position& position, Depth depth, Value alpha, Value beta,
         EXIT_SEARCH(Value(0));
     }
 
-    // cannot check it in ROOT_NODE as it might return
-    // without any move
-    if (!ROOT_NODE && (position.is_repeated() || position.is_draw())) EXIT_SEARCH(VALUE_DRAW);
-
     Move* begin = ROOT_NODE ? &(*_root_moves.begin()) : MOVE_LIST[info->_ply];
     Move* end = ROOT_NODE ? &(*_root_moves.end())
                           : generate_moves(position, position.color(), begin);
@@ -371,6 +367,11 @@ Value Search::search(Position& position, Depth depth, Value alpha, Value beta,
     if (is_in_check) depth++;
 
     if (n_moves == 0) EXIT_SEARCH(is_in_check ? lost_in(0) : VALUE_DRAW);
+
+    // cannot check it in ROOT_NODE as it might return
+    // without any move; checked after the mate test because a mate
+    // delivered on the 100th half-move is still a mate
+    if (!ROOT_NODE && (position.is_repeated() || position.is_draw())) EXIT_SEARCH(VALUE_DRAW);
 
     if (depth == 0 || info->_ply >= MAX_DEPTH)
     {
